@@ -1,7 +1,7 @@
 (* C04 - angle subtraction (and division by an angle), forward-only.  Pinned theorems only. *)
 From Coq Require Import ZArith Reals Lra.
 From Flocq Require Import Core BinarySingleNaN.
-Require Import GV.FloatBase GV.FloatLemmas GV.AngleM GV.AngleProofs.
+Require Import GV.FloatBase GV.FloatLemmas GV.AngleM GV.AngleProofs GV.NewProofs GV.CtorProofs.
 Open Scope R_scope.
 
 Theorem C04_spellings : forall a b,
@@ -49,3 +49,15 @@ Theorem C04_add_sub : forall a b, canonp (rem a) -> canonp (rem b) -> (1 <= blad
   Rabs (theta (geometric_sub (geometric_add a b) b) - theta a) <= 2 * R_ eps10 + 5 * / 4503599627370496.
 Proof. exact add_sub_roundtrip. Qed.
 Print Assumptions C04_add_sub.
+
+(* dividing an angle by a positive number k divides its total by k (a / 1 = a): the result is canonical and
+   within 1e-10 + 2^-52 + 2^-69 + 2^-49 * (theta a / k) of theta a / k  (blades < 2^50, 2^-900 <= k <= 2^900,
+   theta a / k <= 2^41; the re-encoded total is assumed positive, i.e. the quotient does not underflow to 0) *)
+Theorem C04_divf : forall a k, Canon a -> (blade a < 2 ^ 50)%Z -> fin k ->
+  bpow radix2 (-900) <= R_ k <= bpow radix2 900 -> theta a / R_ k <= bpow radix2 41 ->
+  0 < R_ (total_angle (fdiv (float_total a) k) PI) ->
+  Canon (divf_v a k) /\
+  Rabs (theta (divf_v a k) - theta a / R_ k)
+    <= R_ eps10 + / 4503599627370496 + bpow radix2 (-69) + bpow radix2 (-49) * (theta a / R_ k).
+Proof. exact divf_value. Qed.
+Print Assumptions C04_divf.
